@@ -60,6 +60,9 @@ func main() {
 			usage()
 		}
 		os.Exit(replay(os.Args[2]))
+	case "padprobe":
+		padprobe()
+		os.Exit(0)
 	case "selftest":
 		os.Exit(selftest())
 	case "dump":
